@@ -25,7 +25,7 @@ THEOREMS = [
     "NfcVerif.C18.connect_return_table_partial",
     "NfcVerif.C18.connect_systemexit_counterexample",
     "NfcVerif.C18.connect_listen_error_counterexample",
-    "NfcVerif.C18.connect_ends_after_terminate",
+    "NfcVerif.C18.connect_ends_after_terminate_partial",
     "NfcVerif.C18.connect_total",
     "NfcVerif.C18.sense_first_in_order",
     "NfcVerif.C18.sense_field_off_when_none",
@@ -332,7 +332,8 @@ def oracle_connect(ck, cw, spec, env_toks, ts, txt, r, w, replay):
         if fatal:
             ck.fail("return-not-false-on-error", "connect() returned None although %s was raised" % fatal, replay)
     elif r is False:
-        if not fatal and "UnsupportedTargetError" not in inj:
+        single_unknown = spec.rdwr is not None and spec.rdwr["tg"] == ["x"]   # sense() itself raises UnsupportedTargetError
+        if not fatal and "UnsupportedTargetError" not in inj and not single_unknown:
             ck.fail("return-false-unexpected", "connect() returned False without IOError/UnsupportedTargetError/"
                                                "KeyboardInterrupt (%s)" % inj, replay)
     elif txt.startswith("ok obj:"):
